@@ -148,8 +148,8 @@ CLAIMED = {
             "Full-loop histories over 1..6 validators: sends, batch requests, power changes, unbonding, partial signing rounds, relayer submissions of signer-set updates and batches to the real contract (deployed "
             "with the hub's first set, threshold 2863311530) using all / the smallest sufficient / the largest insufficient subset of the confirmations the hub's queries return, external clock, real transferToChain "
             "deposits, contract logs fed back as claims. The contract must accept iff the confirmers' power in ITS current set exceeds the threshold (and the batch is timely and in nonce order); confirmations my record "
-            "says were accepted must reach the relayer with usable signatures; recipients receive exactly the amounts; after feeding all events back hub and contract agree on event nonce, signer-set nonce and checkpoint, and no executed batch stays pending.",
-            "Hub2 bytecode from solidity/contracts/Hub2.go; log-to-claim mapping hand-ported from the Rust orchestrator; the relayer supplies the contract's true current set and drops signatures that do not verify. Minter's multisig is covered abstractly by C13/C01.",
+            "says were accepted must reach the relayer with usable signatures; recipients receive exactly the amounts; after feeding all events back hub and contract agree on event nonce, signer-set nonce and checkpoint, and no executed batch stays pending. Minter side (second test, compiled into the connector's package main through go test -overlay): every validator runs the connector's loop body (relayMinterEvents, relayBatches, relayValsets) against the hub's real query service over in-memory gRPC and a scripted Minter chain whose multisig account (distinct member signatures, weight sum >= threshold, account nonce in order) is the judge: what the hub records as sufficiently confirmed and next in order must be accepted, every recorded confirmation must be a valid signature over the transaction assembled from the hub's data, nothing under-confirmed or different from the hub's batch / signer set executes, payouts equal the batches' amounts, and at rest hub and chain agree on event nonce, signer set and executed batches.",
+            "Hub2 bytecode from solidity/contracts/Hub2.go; log-to-claim mapping hand-ported from the Rust orchestrator; the relayer supplies the contract's true current set and drops signatures that do not verify. Minter's multisig verification is the model in the scripted node; a validator outside the bonded set does not run its connector and resynchronises when it is back.",
             "DESIGN.md §4 C08"),
 }
 
